@@ -16,6 +16,7 @@ pub mod c16;
 pub mod c17;
 pub mod c18;
 pub mod c19;
+pub mod c20;
 
 use crate::engine::Runner;
 
@@ -41,6 +42,7 @@ pub fn run(id: &str, r: &mut Runner) {
         "C17" => c17::run(r),
         "C18" => c18::run(r),
         "C19" => c19::run(r),
+        "C20" => c20::run(r),
         _ => {
             println!("HARNESS-ERROR property {id} has no check yet");
             std::process::exit(2);
